@@ -28,7 +28,45 @@ IO = "MiniMcmcVerif.IO."
 
 ST = "MiniMcmcVerif.Stats."
 
+SD = "MiniMcmcVerif.Seeds."
+SC = "MiniMcmcVerif.Sched."
+
 PROPS = {
+    "C07": {
+        "obligations": [SC + n for n in ["stepAt_comm", "exec_perm", "exec_length", "exec_chain", "run_deterministic"]]
+                       + [SD + n for n in ["xs_injective", "mul_M1_injective", "mul_M2_injective", "mix_injective", "seedFromU64_injective",
+                                           "ofNat_add_injective", "chain_seed_injective"]]
+                       + ["MiniMcmcVerif.Init.init_det_eq_42", "MiniMcmcVerif.Init.init_with_seed_prefix"],
+        "disagreement_is_failing_input": False,
+        "correspondence_name": "seeding correspondence: per-chain generator words of the real samplers vs. the Lean model of seed_from_u64 / xoshiro256++ / the seed derivations",
+        "timeout": 3000,
+        "level_text": "Theorems: in the schedule model (every chain owns its generator; a step reads and writes its own chain only) any two schedules that are permutations of each other give identical "
+                      "chain states — chain i ends at step^[count i] of its start state, for any number of chains and interleaving; splitmix64's output function and hence seed_from_u64 are injective on u64 "
+                      "(no bv_decide), and wrapping seed+i(+1) is injective in the chain index, so different seeds / chains get different generator states, incl. u64::MAX. Tied to the code by (a) exact "
+                      "comparison of every chain's generator output with the model of rand's seeding for all four samplers, (b) running every sampler twice, under rayon pools of 1/2/5/16 threads, next to "
+                      "concurrently running samplers, and through run_progress, comparing outputs bit for bit.",
+        "level_note": "The theorem covers all interleavings of the model; its premise (no mutable state shared between chains/samplers) is what the runtime runs probe — the real rayon/OS schedules explored are the "
+                      "handful these runs produce. A mismatch of the seeding model alone is reported as no-failing-input-found (the property does not fix the derivation).",
+        "rule": "(a) seeds incl. 0, 1, 42, u64::MAX-{0,1,3}, 2^63, 2^63-1 and random, 1-8 chains, MH/Gibbs/NUTS/HMC; (b) 5 sampler kinds (MH with the library proposal and with a user-defined seedable proposal, "
+                "Gibbs with a deterministic conditional, HMC, NUTS) x repeat / pool sizes 1,2,5,16 / three concurrent noise samplers / different seed / progress mode; distinct by (kind, seed, chains, c, d)",
+        "trusted": ["rayon, std threads and mpsc behave as documented; OS entropy differs between calls", "rand 0.9 SmallRng = xoshiro256++ seeded by splitmix64 (known-answer checked in Lean for seed 0 and against the real generator on every run)"],
+        "assumptions": ["Gibbs: the user's conditional is deterministic given its state"],
+    },
+    "C08": {
+        "obligations": [SD + n for n in ["proposalSeed_eq", "mh_chain_streams_distinct", "mh_accept_ne_proposal", "nuts_chain_seeds_distinct", "seedFromU64_injective"]]
+                       + ["MiniMcmcVerif.Init.hmc_rows_disjoint_segments"],
+        "disagreement_is_failing_input": False,
+        "correspondence_name": "seeding correspondence: per-chain acceptance/proposal generator words vs. the Lean model",
+        "level_text": "Theorems: after MetropolisHastings::seed(s), for up to 2^63 chains and every s the 2n generators (acceptance s+i+1, proposal s+i+1+2^63) are seeded pairwise differently — no two chains "
+                      "share a proposal or acceptance stream and within a chain the two never coincide; NUTS chain seeds s+i+1 are pairwise distinct; seed_from_u64 is injective so distinct seeds are distinct "
+                      "generator states; HMC's batch rows are disjoint segments of one stream. Tied to the code by comparing the real generators' output words with the model and, on the implementation alone, by "
+                      "pairwise distinctness of generator states, next proposals from equal states and trajectories of 2-64 chains started from one common state, seeded and unseeded.",
+        "level_note": "Assumption: unseeded construction relies on OS entropy (from_os_rng) giving distinct seeds. Gibbs is excluded by the property. A mismatch of the seeding model alone is reported as no-failing-input-found.",
+        "rule": "2-64 chains (every fifth case 64) started from one common state, seeded (60%) and unseeded, seeds incl. the wrap-around ones; MH with IsotropicGaussian and with a user-defined seedable proposal, NUTS, HMC; "
+                "distinct by (kind, seeded?, chains, seed)",
+        "trusted": ["OS entropy yields distinct seeds for unseeded construction"],
+        "assumptions": [],
+    },
     "C11": {
         "obligations": [ST + n for n in ["splitcat_spec", "varplus_eq", "rhatSq_eq", "Bof_nonneg", "rhatSq_ge", "mean_affine", "withinVar_affine", "rhat_affine_inv",
                                          "rhat_chain_perm_inv", "rhat_param_local", "sortDesc_perm", "sortDesc_sorted", "basic_minmax_spec"]],
